@@ -674,6 +674,19 @@ def _(top):
     return [d, storage_adr0, p.dat_r]
 
 
+@design("adv.memory and instances named with reserved words (table, buf, reg) while no signal carries those words")
+def _(top):
+    L = _lx()
+    Signal, Instance, Memory = L["Signal"], L["Instance"], L["Memory"]
+    a, d, we = Signal(name="qa"), Signal(name="d"), Signal(name="wen")
+    adr = Signal(2, name="idx")
+    top.specials += Instance("BUFG", name="buf", i_I=d, o_O=a), Instance("FDRE", name="reg", i_D=a, o_Q=Signal(name="qb"))
+    top.lut = lut = Memory(4, 4, name="table")
+    top.port = p = lut.get_port(write_capable=True)
+    top.comb += [p.adr.eq(adr), p.dat_w.eq(L["Cat"](a, d)), p.we.eq(we)]
+    return [d, we, adr, p.dat_r]
+
+
 @design("adv.memory helper registers vs user signals mem_adr0 / mem_dat1 / mem_adr2 (all sync port modes)")
 def _(top):
     L = _lx()
